@@ -48,6 +48,18 @@ func c10Strata() []stratum {
 			c.Depth, c.Fanout, c.MaxStmts, c.PAbsent, c.PRepeat = 2, 48, 3, 10, 5
 			c.PSrcSeq, c.PSrcAllot, c.PWorld, c.POriginVar, c.PLongSrc = 60, 15, 5, 20, 30
 		}), 2},
+		{"huge-accounts", with(func(c *gen.LCfg) {
+			// more than 128 accounts asked for in one request
+			c.Accounts = manyAccounts(170)
+			c.Assets = []string{"USD"}
+			c.Depth, c.Fanout, c.MinStmts, c.MaxStmts, c.PAbsent, c.PRepeat, c.PLongSrc, c.PFunded, c.PWorld = 1, 170, 1, 2, 5, 3, 100, 90, 2
+		}), 1},
+		{"concat", with(func(c *gen.LCfg) {
+			c.Accounts = []string{"user", "userA", "a", "aB", "ab", "abT"}
+			c.Assets = []string{"USD", "AUSD", "BTC", "TC", "C"}
+			c.MultiAsset = true
+			c.MinStmts, c.MaxStmts, c.Depth, c.PSrcSeq, c.PWorld, c.PAbsent, c.POriginVar = 2, 5, 1, 45, 4, 3, 25
+		}), 1},
 		{"biglits", with(func(c *gen.LCfg) {
 			c.Accounts = []string{"a", "b"}
 			c.Assets = []string{"USD"}
